@@ -172,10 +172,6 @@ Proof. split; [vm_compute; discriminate | vm_compute; reflexivity]. Qed.
 Definition w_zero_flag_on_string : list str := [[37;48;53;115;124]; [97;98]].
 Lemma refuted_zero_flag_on_string : printf_builtin w_zero_flag_on_string <> BOut [32;32;32;97;98;124] 0 /\ (fun a => spec_printf (hd [] a) (tl a)) w_zero_flag_on_string = None.
 Proof. split; [vm_compute; discriminate | vm_compute; reflexivity]. Qed.
-(* printf '%5b|' 'x'  -> bash: '    x|' status 0 *)
-Definition w_b_width_ignored : list str := [[37;53;98;124]; [120]].
-Lemma refuted_b_width_ignored : printf_builtin w_b_width_ignored <> BOut [32;32;32;32;120;124] 0 /\ (fun a => spec_printf (hd [] a) (tl a)) w_b_width_ignored = None.
-Proof. split; [vm_compute; discriminate | vm_compute; reflexivity]. Qed.
 (* printf '%+x' '255'  -> bash: 'ff' status 0 *)
 Definition w_sign_flag_on_unsigned : list str := [[37;43;120]; [50;53;53]].
 Lemma refuted_sign_flag_on_unsigned : printf_builtin w_sign_flag_on_unsigned <> BOut [102;102] 0 /\ (fun a => spec_printf (hd [] a) (tl a)) w_sign_flag_on_unsigned = None.
@@ -211,14 +207,6 @@ Proof. split; [vm_compute; discriminate | vm_compute; reflexivity]. Qed.
 (* printf '\\ud800'  -> bash: b'\xed\xa0\x80' status 0 *)
 Definition w_unicode_escape_nonscalar : list str := [[92;117;100;56;48;48]].
 Lemma refuted_unicode_escape_nonscalar : printf_builtin w_unicode_escape_nonscalar <> BOut [237;160;128] 0 /\ (fun a => spec_printf (hd [] a) (tl a)) w_unicode_escape_nonscalar = None.
-Proof. split; [vm_compute; discriminate | vm_compute; reflexivity]. Qed.
-(* printf '\\%d|' '7'  -> bash: '\\7|' status 0 *)
-Definition w_backslash_percent : list str := [[92;37;100;124]; [55]].
-Lemma refuted_backslash_percent : printf_builtin w_backslash_percent <> BOut [92;55;124] 0 /\ (fun a => spec_printf (hd [] a) (tl a)) w_backslash_percent = None.
-Proof. split; [vm_compute; discriminate | vm_compute; reflexivity]. Qed.
-(* echo '-ne' 'a\\n'  -> bash: 'a\n' status 0 *)
-Definition w_echo_combined_options : list str := [[45;110;101]; [97;92;110]].
-Lemma refuted_echo_combined_options : echo_builtin w_echo_combined_options <> BOut [97;10] 0 /\ spec_echo w_echo_combined_options = None.
 Proof. split; [vm_compute; discriminate | vm_compute; reflexivity]. Qed.
 (* echo '-e' '\\101'  -> bash: '\\101\n' status 0 *)
 Definition w_echo_bare_octal : list str := [[45;101]; [92;49;48;49]].
@@ -363,7 +351,7 @@ Section EscStep.
         destruct (is_scalar (parse_base 16 (d0 :: d'))); intro H; inversion H; subst. reflexivity. }
     cbv iota.
     atom 99; [destruct m; intro H; inversion H; subst; reflexivity|].
-    atom PCT; [destruct m; intro H; inversion H; subst; reflexivity|].
+    atom PCT; [intro H; inversion H; subst; reflexivity|].
     intro H; inversion H; subst; reflexivity.
   Qed.
 End EscStep.
@@ -409,7 +397,21 @@ Proof.
   change (98 =? PCT) with false. change (98 =? 99) with false. cbv iota.
   change ((98 =? 43) || (98 =? 45) || (98 =? 32)) with false. change (is_dec 98) with false. cbv iota.
   change ((98 =? 115) || (98 =? 98) || (98 =? 100) || (98 =? 105) || (98 =? 117) || (98 =? 111) || (98 =? 120)) with true.
-  cbv iota. unfold take_arg. simpl. change (98 =? 98) with true. cbv iota. rewrite H. simpl. rewrite app_nil_r. reflexivity.
+  cbv iota. unfold take_arg. simpl. change (98 =? 98) with true. cbv iota. rewrite H. simpl. rewrite !app_nil_r. reflexivity.
+Qed.
+
+Lemma optword_same : forall a, echo_optword a = spec_optword a.
+Proof. reflexivity. Qed.
+
+Lemma optchars_spec : forall cs nl ex,
+  echo_optchars cs nl ex = (nl && negb (existsb (fun c => c =? 110) cs), spec_last_eE cs ex).
+Proof.
+  unfold spec_last_eE. induction cs as [|c t IH]; intros nl ex; simpl.
+  - rewrite andb_true_r. reflexivity.
+  - destruct (c =? 110) eqn:E1.
+    + apply N.eqb_eq in E1; subst c. rewrite IH. simpl. rewrite andb_false_r. reflexivity.
+    + destruct (c =? 101) eqn:E2; [rewrite IH; reflexivity|].
+      destruct (c =? 69) eqn:E3; rewrite IH; reflexivity.
 Qed.
 
 Lemma echo_opts_spec : forall args nl ex rest nl' ex', spec_echo_opts args nl ex = Some (rest, nl', ex') ->
@@ -417,10 +419,9 @@ Lemma echo_opts_spec : forall args nl ex rest nl' ex', spec_echo_opts args nl ex
 Proof.
   induction args as [|a t IH]; intros nl ex rest nl' ex' H; simpl in *.
   - inversion H; reflexivity.
-  - destruct (str_eqb a s_n); [apply IH; exact H|].
-    destruct (str_eqb a s_e); [apply IH; exact H|].
-    destruct (str_eqb a s_E); [apply IH; exact H|].
-    destruct (looks_like_opts a); [discriminate|]. inversion H; reflexivity.
+  - rewrite optword_same. destruct (spec_optword a).
+    + rewrite optchars_spec. apply IH. exact H.
+    + inversion H; reflexivity.
 Qed.
 
 Lemma echo_join_spec : forall ex args o nl, spec_echo_join ex args = Some o -> forall first,
@@ -700,7 +701,11 @@ Section DirSim.
     | None => GoPanic
     | Some (arg, args') =>
         match brec arg with
-        | Done o _ => emit o (loop brec fuel false r [] args')
+        | Done e _ =>
+            match go_fprintf (tl fmts) 115 (VStr e) with
+            | None => Unmodelled
+            | Some o => emit o (loop brec fuel false r [] args')
+            end
         | e => e
         end
     end.
@@ -755,9 +760,13 @@ Proof.
     apply rune_count_ascii. destruct (is_ascii arg); [reflexivity|discriminate]. }
   destruct (cv =? 98) eqn:E2.
   { apply N.eqb_eq in E2; subst cv. inversion CK as [K]. rewrite conv_step_b by reflexivity.
-    rewrite TA. rewrite <- K in SC. cbv beta iota in SC. revert SC.
-    destruct (0 <? d_width d); [intro SC; discriminate|]. intro SC.
-    rewrite (format_b_spec MPercentB arg o1 eq_refl SC). reflexivity. }
+    rewrite TA. cbn [tl]. rewrite <- K in SC. cbv beta iota in SC. revert SC.
+    destruct (spec_b MPercentB arg) as [e|] eqn:SB; [|intro SC; discriminate].
+    destruct (d_zero d && negb (d_minus d) && (0 <? d_width d)) eqn:Z; [intro SC; discriminate|].
+    destruct ((0 <? d_width d) && negb (is_ascii e)) eqn:A; [intro SC; discriminate|]. intro SC. inversion SC; subst o1.
+    rewrite (format_b_spec MPercentB arg e eq_refl SB).
+    rewrite (fprintf_s fl zs ws d e GF HW L7 WD Z); [reflexivity|]. intro P. rewrite P in A. simpl in A.
+    apply rune_count_ascii. destruct (is_ascii e); [reflexivity|discriminate]. }
   destruct (cv =? 99) eqn:E3.
   { apply N.eqb_eq in E3; subst cv. inversion CK as [K]. rewrite conv_step_c by reflexivity.
     rewrite TA. cbn [tl]. rewrite <- K in SC. cbv beta iota in SC. revert SC.
